@@ -151,7 +151,9 @@ func genJoin(engine, prop string, r *simrt.SplitMix) *JoinSc {
 
 	unit := sc.Timeout
 	if unit <= 0 {
-		unit = int64(pick(r, 1, 10, 1000))
+		// without a timeout nothing in the discipline ticks, so pauses of any length cost
+		// nothing: some runs stay silent for milliseconds or seconds between elements
+		unit = int64(pick(r, 1, 10, 1000, 1000, 1_000_000, 50_000_000, 1_000_000_000))
 	}
 
 	iv := sc.interval()
@@ -164,6 +166,9 @@ func genJoin(engine, prop string, r *simrt.SplitMix) *JoinSc {
 
 	// the number of ticker wake-ups is what a run costs: bound the total pause
 	budget := 1200 * iv * int64(scale)
+	if sc.Timeout <= 0 {
+		budget = 1200 * unit
+	}
 
 	pattern := r.Intn(4) // 0 bursts, 1 trickle, 2 one then silence, 3 random
 
